@@ -126,6 +126,24 @@ CLAIMED.update({
                      "the widest of its section, incl. empty value + unit and the four 1.2 ~Well items with their own layout."),
 })
 
+CLAIMED.update({
+    "C10": dict(cat="exploration", ref="DESIGN.md 3 (C10), 2.4",
+                technique="deterministic simulation with several simulated clients: read/write/construct/mutate histories over the "
+                          "simulated file system (channel x codec x newline x delivery policy), interleaved by a seeded op-level "
+                          "scheduler and by a line-level baton scheduler (real threads released one at a time at sys.settrace line "
+                          "events inside lasio); every read compared with the solo reference read of the same text",
+                text="Channel/encoding independence (incl. non-ASCII header text in BOM/explicit codecs, CR/CRLF files), purity of "
+                     "repeated reads after writes, constructions and mutations of earlier results, and non-interference between "
+                     "interleaved clients are decided by one oracle: equality with the solo StringIO read."),
+    "C19": dict(cat="fault_enumeration", ref="DESIGN.md 3 (C19)",
+                technique="deterministic simulation with fault injection into stored content: sequences of 1..5 junk lines injected at "
+                          "sites inside ~V/~W/~P/custom sections of readable bases (generated + example corpus), delivered through "
+                          "simulated channels; complete sweep of every site x ~60 adversarial strings for one base on every run",
+                text="With the flag no junk line may raise, change/drop/reorder genuine items or alter curve data; without it only "
+                     "LASHeaderError naming the line is allowed. Sites x adversarial strings are enumerated for one base, longer "
+                     "fault sequences and other bases are sampled."),
+})
+
 NOT_APPLICABLE = {
     "C04": "read_header_line is a pure function of one already-delivered line (regex cascade): no stream position, "
            "history, fault or interleaving can influence it, so deterministic simulation adds nothing (DESIGN.md 4)",
